@@ -888,30 +888,40 @@ impl<R: Read> RdbReader<R> {
             .unwrap()
             .as_millis() as u64;
         
-        let ttl = if expiry_ms > now_ms {
-            Some(Duration::from_millis(expiry_ms - now_ms))
+        if expiry_ms > now_ms {
+            let ttl = Some(Duration::from_millis(expiry_ms - now_ms));
+            self.read_key_value_with_type(storage, db, value_type, ttl)?;
         } else {
-            None // Already expired
-        };
+            // The deadline passed while the server was down: the entry is read
+            // (to stay in step with the file) but the key does not come back
+            let key = self.read_key_value_with_type(storage, db, value_type, None)?;
+            storage.delete(db, &key)?;
+        }
         
-        self.read_key_value_with_type(storage, db, value_type, ttl)
+        Ok(())
     }
     
     /// Read key-value with known type
-    fn read_key_value_with_type(&mut self, storage: &Arc<StorageEngine>, db: usize, value_type: u8, ttl: Option<Duration>) -> Result<()> {
+    fn read_key_value_with_type(&mut self, storage: &Arc<StorageEngine>, db: usize, value_type: u8, ttl: Option<Duration>) -> Result<Vec<u8>> {
+        // Every value type starts with the key
+        let known_type = [RdbOpcode::String as u8, RdbOpcode::ZSet as u8, RdbOpcode::ZSet2 as u8,
+                          RdbOpcode::List as u8, RdbOpcode::Set as u8, RdbOpcode::Hash as u8];
+        if !known_type.contains(&value_type) {
+            return Err(FerrousError::Io(format!("Unknown value type: {}", value_type)));
+        }
+        let key = self.read_string()?;
+        
         match value_type {
             op if op == RdbOpcode::String as u8 => {
-                let key = self.read_string()?;
                 let value = self.read_string()?;
                 
                 if let Some(ttl) = ttl {
-                    storage.set_string_ex(db, key, value, ttl)?;
+                    storage.set_string_ex(db, key.clone(), value, ttl)?;
                 } else {
-                    storage.set_string(db, key, value)?;
+                    storage.set_string(db, key.clone(), value)?;
                 }
             }
             op if op == RdbOpcode::ZSet as u8 || op == RdbOpcode::ZSet2 as u8 => {
-                let key = self.read_string()?;
                 let count = self.read_length()?;
                 
                 for _ in 0..count {
@@ -928,7 +938,6 @@ impl<R: Read> RdbReader<R> {
                 }
             }
             op if op == RdbOpcode::List as u8 => {
-                let key = self.read_string()?;
                 let count = self.read_length()?;
                 
                 // Check if this is a stream marker
@@ -983,7 +992,7 @@ impl<R: Read> RdbReader<R> {
                         if let Some(ttl) = ttl {
                             storage.expire(db, &key, ttl)?;
                         }
-                        return Ok(());
+                        return Ok(key);
                     } else {
                         // Regular list - first element already read
                         storage.rpush(db, key.clone(), vec![first_element])?;
@@ -1003,7 +1012,6 @@ impl<R: Read> RdbReader<R> {
                 }
             }
             op if op == RdbOpcode::Set as u8 => {
-                let key = self.read_string()?;
                 let count = self.read_length()?;
                 
                 // Read all set members
@@ -1020,7 +1028,6 @@ impl<R: Read> RdbReader<R> {
                 }
             }
             op if op == RdbOpcode::Hash as u8 => {
-                let key = self.read_string()?;
                 let count = self.read_length()?;
                 
                 // Read all hash field-value pairs
@@ -1044,7 +1051,7 @@ impl<R: Read> RdbReader<R> {
             }
         }
         
-        Ok(())
+        Ok(key)
     }
     
     /// Read a single byte
